@@ -66,9 +66,20 @@ def _step_call(it, fn, formula, offset, token, in_string, in_path, in_range, in_
                'inPath': in_path, 'inRange': in_range, 'inError': in_error, 'tokens': tokens, 'tokenStack': stack},
               {}, f.__globals__, func=f)
     env.argnames = ['self', 'formula']
+    state = dict(env.loc)
     for st in node.body:
+        if st is main:
+            break
         if isinstance(st, pyast.FunctionDef):
             it.stmt(st, env)                          # the real closures currentChar / doubleChar / nextChar / EOF
+        elif isinstance(st, (pyast.Assign, pyast.AnnAssign)) and not any(isinstance(n, (pyast.Call,)) and 'getTokens' in pyast.unparse(n) for n in pyast.walk(st)):
+            # locals set up before the scan loop (constants, cached attributes, compiled patterns, the token collections): run them,
+            # then put the proposed loop state on top
+            try:
+                it.stmt(st, env)
+            except Exception:      # noqa  (a set-up statement the step does not need)
+                pass
+    env.loc.update(state)
     it.interpreted.add('xlcalculator.tokenizer:ExcelParser.getTokens(main loop body)')
     # loop contract of the inner blank-skipping loop (anchored by its guard text; if the loop is rewritten the contract
     # no longer applies and the obligation is undecided, not violated)
